@@ -49,11 +49,40 @@ Theorem C17_strncpy_in_bounds : forall src n, (1 <= n)%nat ->
 Proof. exact strncpy_safe. Qed.
 Print Assumptions C17_strncpy_in_bounds.
 
+(* ... and its content: the first min(len, n-1) bytes of the C string src, then NULs up to n; the string the
+   callee sees is src cut at n-1 bytes *)
+Theorem C17_strncpy_content : forall src n junk, (1 <= n)%nat -> length junk = n ->
+  exists ws, psutil_strncpy src n = Some ws /\
+             apply_writes junk ws = pad n (firstn (n - 1) (cut_nul src)) /\
+             c_str (apply_writes junk ws) = Some (firstn (n - 1) (cut_nul src)).
+Proof. exact strncpy_content. Qed.
+Print Assumptions C17_strncpy_content.
+
+(* the interface name handed to the ioctls: the first 15 bytes of the argument, for every argument and every
+   previous content of ifr.ifr_name *)
+Theorem C17_ifr_name : forall junk name, length junk = IFNAMSIZ -> contains 0 name = false ->
+  ifr_name junk name = Some (firstn 15 name).
+Proof. exact ifr_name_exact. Qed.
+Print Assumptions C17_ifr_name.
+
 (* MAC formatting: for every hardware address of 1..255 bytes all writes stay inside buf[NI_MAXHOST] *)
 Theorem C17_mac_in_bounds : forall data,
   (1 <= length data <= 255)%nat -> in_bounds NI_MAXHOST (mac_writes data).
 Proof. exact mac_in_bounds. Qed.
 Print Assumptions C17_mac_in_bounds.
+
+(* ... and the text is the lower-case hex pairs joined by ':', whatever the buffer held before *)
+Theorem C17_mac_text : forall junk data,
+  length junk = NI_MAXHOST -> (1 <= length data <= 255)%nat -> wf_bytes data = true ->
+  mac_string junk data = Some (spec_mac data).
+Proof. exact mac_string_exact. Qed.
+Print Assumptions C17_mac_text.
+
+(* psutil.net_if_addrs(): an address shorter than 6 bytes is completed with zero bytes, longer ones are left alone *)
+Theorem C17_mac_padding : forall data, (1 <= length data)%nat -> wf_bytes data = true ->
+  py_mac_pad (spec_mac data) = spec_mac (data ++ repeat 0 (6 - length data)).
+Proof. exact py_mac_pad_exact. Qed.
+Print Assumptions C17_mac_padding.
 
 (* ---------------------------------------------------------------- CPU sets *)
 (* CPU_SET on any C long: the bit touched is < 1024 (the size of cpu_set_t), or nothing is touched *)
@@ -163,44 +192,98 @@ Theorem C17_mntent_roundtrip : forall s, decode_name (mangle s) = s.
 Proof. exact decode_mangle. Qed.
 Print Assumptions C17_mntent_roundtrip.
 
-(* every mounts file printed from well-formed entries whose lines fit glibc's 4096-byte buffer:
-   getmntent() delivers exactly the entries (device, mount point, type, options) *)
+(* every mounts file printed from well-formed entries (non-empty device without '#') whose lines fit glibc's
+   4096-byte buffer: getmntent() delivers exactly the entries (device, mount point, type, options) *)
 Theorem C17_getmntent_exact : forall es,
-  forallb wf_ment es = true -> forallb short_line es = true -> getmntent_all (k_mounts es) = Val es.
+  forallb wf_ment es = true -> forallb dev_ok es = true -> forallb short_line es = true ->
+  getmntent_all (k_mounts es) = Val es.
 Proof. exact getmntent_exact. Qed.
 Print Assumptions C17_getmntent_exact.
 
-(* the loop of disk_partitions(): device 'none' shown as '', and without all=True only entries with a
-   device and a disk-backed type -- for any set of types that agrees with the kernel's list.
-   PARTIAL: the full statement
-     forall fs es, forallb wf_fs fs = true -> ... -> disk_partitions fixed false (k_filesystems fs) (k_mounts es)
-                   = Val (spec_partitions false fs es)
-   needs the lemma  mem_bytes t (read_fstypes (k_filesystems fs)) = disk_backed fs t  (parsing of
-   /proc/filesystems), which is not proved; that step is covered by the correspondence run only. *)
-Theorem C17_partitions_filter_partial : forall all fstypes fs es,
-  (forall t, mem_bytes t fstypes = disk_backed fs t) -> forallb plain_dev es = true ->
-  partitions_loop all fstypes es = Val (spec_partitions all fs es).
-Proof. exact partitions_loop_exact. Qed.
-Print Assumptions C17_partitions_filter_partial.
+(* the other side of the boundary: of a line longer than 4095 bytes exactly the first 4095 bytes are parsed ... *)
+Theorem C17_getmntent_long_line : forall line,
+  (4095 < length line)%nat -> mnt_line line = mnt_parse (firstn 4095 line).
+Proof. exact mnt_line_long. Qed.
+Print Assumptions C17_getmntent_long_line.
 
-(* disk_partitions(all=True) end to end: every entry, with device, mount point, type and options --
-   whatever bytes they contain (lines that fit glibc's buffer) *)
+(* ... e.g. when the cut falls inside the mount point: device intact, mount point cut there, type and options empty *)
+Theorem C17_getmntent_cut_in_mount_point : forall e,
+  wf_ment e = true -> dev_ok e = true ->
+  (length (mangle (m_dev e)) + 2 <= 4095 <= length (mangle (m_dev e)) + 1 + length (mangle (m_dir e)))%nat ->
+  mnt_line (k_mount_line e) =
+    Some {| m_dev := m_dev e;
+            m_dir := decode_name (firstn (4095 - length (mangle (m_dev e)) - 1) (mangle (m_dir e)));
+            m_type := []; m_opts := [] |}.
+Proof. exact mnt_line_cut_in_dir. Qed.
+Print Assumptions C17_getmntent_cut_in_mount_point.
+
+(* ... and at the boundary itself: 4095 bytes exact; 4100 bytes still exact (only ' 0 0' is lost); one more byte
+   and the options come back cut *)
+Theorem C17_getmntent_boundary :
+  length (k_mount_line (ment_len 4071)) = 4095%nat /\ mnt_line (k_mount_line (ment_len 4071)) = Some (ment_len 4071) /\
+  length (k_mount_line (ment_len 4076)) = 4100%nat /\ mnt_line (k_mount_line (ment_len 4076)) = Some (ment_len 4076) /\
+  length (k_mount_line (ment_len 4077)) = 4101%nat /\
+  mnt_line (k_mount_line (ment_len 4077))
+    = Some {| m_dev := bs "/dev/sda1"; m_dir := 47 :: repeat 120 4077; m_type := bs "ext4"; m_opts := bs "r" |}.
+Proof. exact boundary_4095. Qed.
+Print Assumptions C17_getmntent_boundary.
+
+(* /proc/filesystems, every printed list ("nodev\t<name>" / "\t<name>" lines): the set psutil builds contains
+   exactly the types listed without nodev, plus zfs *)
+Theorem C17_filesystems_exact : forall fs, forallb wf_fs fs = true ->
+  exists types, read_fstypes (k_filesystems fs) = Val types /\ forall t, mem_bytes t types = disk_backed fs t.
+Proof. exact read_fstypes_exact. Qed.
+Print Assumptions C17_filesystems_exact.
+
+(* disk_partitions(all) end to end, for every printed /proc/filesystems and every mounts table: device 'none' shown
+   as '', and without all=True exactly the entries with a device and a disk-backed type; with all=True every entry *)
+Theorem C17_partitions_filter : forall all fs es,
+  forallb wf_fs fs = true -> forallb wf_ment es = true -> forallb dev_ok es = true ->
+  forallb short_line es = true -> forallb plain_dev es = true ->
+  disk_partitions all (k_filesystems fs) (k_mounts es) = Val (spec_partitions all fs es).
+Proof. exact disk_partitions_exact. Qed.
+Print Assumptions C17_partitions_filter.
+
+(* with all=True /proc/filesystems is not consulted at all *)
 Theorem C17_partitions_all : forall fsb es,
-  forallb wf_ment es = true -> forallb short_line es = true -> forallb plain_dev es = true ->
+  forallb wf_ment es = true -> forallb dev_ok es = true -> forallb short_line es = true -> forallb plain_dev es = true ->
   disk_partitions true fsb (k_mounts es) = Val (spec_partitions true [] es).
 Proof. exact disk_partitions_all. Qed.
 Print Assumptions C17_partitions_all.
 
-(* known finding (not repaired): a line longer than 4095 bytes comes back cut (type and options empty) *)
+(* known finding (not repaired): an entry whose fields reach beyond the first 4095 bytes of its line comes back cut *)
 Theorem C17_mounts_longline_refuted : exists es,
-  forallb wf_ment es = true /\ forallb plain_dev es = true /\ forallb utf8_ok es = true /\
+  forallb wf_ment es = true /\ forallb dev_ok es = true /\ forallb plain_dev es = true /\ forallb utf8_ok es = true /\
   exists rows, disk_partitions true [] (k_mounts es) = Val rows /\ map m_type rows = [[]].
 Proof. exact mounts_longline_refuted. Qed.
 Print Assumptions C17_mounts_longline_refuted.
 
+(* known finding: '#' in a device name is printed by the kernel as \043 and reported like that *)
+Theorem C17_mounts_hash_refuted : exists es,
+  forallb wf_ment es = true /\ forallb plain_dev es = true /\ forallb short_line es = true /\ forallb utf8_ok es = true /\
+  exists rows, disk_partitions true [] (k_mounts es) = Val rows /\ map m_dev rows = [bs "\043dev"] /\ map m_dev es = [bs "#dev"].
+Proof. exact mounts_hash_refuted. Qed.
+Print Assumptions C17_mounts_hash_refuted.
+
+(* known finding: an empty device name shifts all four fields *)
+Theorem C17_mounts_emptydev_refuted : exists es,
+  forallb wf_ment es = true /\ forallb plain_dev es = true /\ forallb short_line es = true /\ forallb utf8_ok es = true /\
+  map m_dev es = [[]] /\
+  disk_partitions true [] (k_mounts es)
+    = Val [ {| m_dev := bs "/mnt"; m_dir := bs "tmpfs"; m_type := bs "rw"; m_opts := bs "0" |} ].
+Proof. exact mounts_emptydev_refuted. Qed.
+Print Assumptions C17_mounts_emptydev_refuted.
+
+(* observation, outside the property's quantifier (no kernel filesystem is named like this): a device-backed type
+   whose name starts with "nodev" makes the /proc/filesystems loop raise IndexError; excluded by wf_fs above *)
+Theorem C17_filesystems_nodev_name_observation :
+  read_fstypes (k_filesystems [ {| fs_nodev := false; fs_name := bs "nodevfs" |} ]) = Exc IndexError.
+Proof. exact filesystems_nodev_name_observation. Qed.
+Print Assumptions C17_filesystems_nodev_name_observation.
+
 (* fixed defect (0d52d5b): the legacy code needed UTF-8 type and options ... *)
 Theorem C17_partitions_legacy_all : forall fsb es,
-  forallb wf_ment es = true -> forallb short_line es = true -> forallb plain_dev es = true ->
+  forallb wf_ment es = true -> forallb dev_ok es = true -> forallb short_line es = true -> forallb plain_dev es = true ->
   forallb utf8_ok es = true ->
   disk_partitions_legacy true fsb (k_mounts es) = Val (spec_partitions true [] es).
 Proof. exact disk_partitions_legacy_all. Qed.
@@ -208,7 +291,7 @@ Print Assumptions C17_partitions_legacy_all.
 
 (* ... one non-UTF-8 byte made the whole call raise *)
 Theorem C17_mounts_legacy_nonutf8_refuted : exists es,
-  forallb wf_ment es = true /\ forallb plain_dev es = true /\ forallb short_line es = true /\
+  forallb wf_ment es = true /\ forallb dev_ok es = true /\ forallb plain_dev es = true /\ forallb short_line es = true /\
   disk_partitions_legacy true [] (k_mounts es) = Exc UnicodeError.
 Proof. exact mounts_legacy_nonutf8_refuted. Qed.
 Print Assumptions C17_mounts_legacy_nonutf8_refuted.
